@@ -16,6 +16,8 @@ Models of the pure code that package v1 (/repo/v1) adds on top of v2.  Core Lean
 * `trailingWs`, `isBlank` — the two predicates of `appendIndent` (/repo/v1/indent.go:95 and :127).
 -/
 import JsonV.Model.Basic
+import JsonV.Model.Validate
+import JsonV.Model.Format
 
 namespace JsonV.Model.V1
 open JsonV
@@ -201,7 +203,57 @@ def run : Nat → Bytes → List Bool → Mode → Bool
          | some (r, st, m) => run fuel r st m
          | none => false)
 
-/-- `v1.Valid(data)` -/
-def valid (b : Bytes) : Bool := run (b.length + 1) b [] Mode.value
+/-- An independent second recogniser of the same acceptance set (hand-written push-down automaton over bytes).
+It is NOT what the theorems speak about; the harness checks `validPda = valid = v1.Valid = encoding/json.Valid` on
+every generated input, and `Props/C09.validPda_eq_valid_full` keeps the unproved equality visible. -/
+def validPda (b : Bytes) : Bool := run (b.length + 1) b [] Mode.value
+
+/-- The decoder options `checkValid` sets (/repo/v1/scanner.go:30): AllowDuplicateNames | AllowInvalidUTF8. -/
+def permissive : Validate.VOpts := ⟨true, true⟩
+
+/-- `v1.Valid(data)` = `checkValid(data) == nil` (/repo/v1/scanner.go:22-44): ONE `ReadValue` of a fresh jsontext
+decoder over the whole buffer with the two permissive flags, then `CheckEOF` — which is exactly slice C01's model
+`Validate.validText` (consumeValue at the top level, then only whitespace) instantiated at those flags. -/
+def valid (b : Bytes) : Bool := Validate.isValid permissive b
+
+/-! ### v1.Compact and v1.Indent (/repo/v1/indent.go:48-140, as fixed by /repo commit 2a3df4e)
+
+Both call `jsontext.AppendFormat` with AllowDuplicateNames, AllowInvalidUTF8, PreserveRawStrings — slice C12's
+`Fmt.format` (strings and numbers verbatim, delimiters and whitespace regenerated). -/
+
+/-- `v1.Compact`: `none` = error (dst is left as it was). -/
+def compact (src : Bytes) : Option Bytes := Fmt.compact src
+
+def spaces (n : Nat) : Bytes := List.replicate n 0x20
+
+/-- What the `n` placeholder spaces after a newline become: `copy(spaces, invalidPrefix)` and then
+`copy(spaces, invalidIndent)` until the run is used up, i.e. the first `n` bytes of `pre ++ ind ++ ind ++ …`.
+(With `ind = ""` and `n > len(pre)` the Go loop would not terminate — the D4b defect, unreachable on formatted
+output where `n = len(pre) + k·len(ind)`; the model leaves those bytes as spaces.) -/
+def fill (pre ind : Bytes) (n : Nat) : Bytes :=
+  let s := (pre ++ Fmt.repeatBytes ind n).take n
+  s ++ spaces (n - s.length)
+
+/-- `replacePlaceholders` of appendIndent: after every `\n`, the run of spaces that follows is overwritten. -/
+def replacePH (pre ind : Bytes) : Bytes → Bytes
+  | [] => []
+  | c :: rest =>
+    if c == 0x0A then
+      let n := (rest.takeWhile (· == 0x20)).length
+      0x0A :: (fill pre ind n ++ replacePH pre ind (rest.drop n))
+    else c :: replacePH pre ind rest
+termination_by b => b.length
+decreasing_by
+  all_goals simp_wf
+  all_goals omega
+
+/-- `v1.Indent(dst, src, prefix, indent)`: the bytes appended to dst, `none` = error (nothing appended).
+Blank prefix and indent (spaces and tabs only): format directly.  Otherwise: format with placeholder spaces of the
+same lengths, overwrite the placeholders line by line, and only THEN append the trailing whitespace of src. -/
+def indent (pre ind src : Bytes) : Option Bytes :=
+  if isBlank pre && isBlank ind then
+    (Fmt.indent pre ind src).map (· ++ trailingWs src)
+  else
+    (Fmt.indent (spaces pre.length) (spaces ind.length) src).map (fun out => replacePH pre ind out ++ trailingWs src)
 
 end JsonV.Model.V1
